@@ -4,9 +4,64 @@
 
 package certs
 
-//@ func ValidateFinalityCertificates
+// ---------------------------------------------------------------------------------------------------------------
+// Signature check of one certificate: a strong quorum of the scaled power of the table it is given, signers in
+// range with non-zero scaled power, aggregate verified over exactly {instance, round 0, DECIDE, supplemental data,
+// finalized chain} and exactly those signers.
+//@ func verifyFinalityCertificateSignature
+//@   property C04
+//@   requires sumPowDef(powerTable)
 //@   modifies auto
+//@   maypanic
+//@   ensures[aggregate_verified] result == nil ==> res(VerifyAggregate, 1) == nil && res(Scaled, 1, 2) == nil && res(Aggregate, 1, 1) == nil
+//@   at PublicKeys 1
+//@     assume ssumDef(scaled, cert.Signers)
+//@   iter 1
+//@     invariant ssumDef(scaled, cert.Signers) && len(scaled) == len(powerTable) && forall(i, 0, len(scaled), 0 <= scaled[i] && scaled[i] <= 65535)
+//@     invariant signerPowers == ssum(scaled, cert.Signers, iter) && 0 <= signerPowers && signerPowers <= 65535*iter
+//@     invariant len(mask) == iter && (iter == 0 || elem(iter-1) >= iter-1) && iter <= len(powerTable)
+//@     invariant forall(j, 0, iter, mask[j] == elem(j) && elem(j) < len(powerTable) && scaled[elem(j)] > 0)
+//@   at Aggregate 1
+//@     before[strong_quorum_of_scaled_power_of_the_given_table] 3*ssum(scaled, cert.Signers, bfCount(cert.Signers)) >= 2*res(Scaled, 1, 1)
+//@     before[signers_in_table_with_power] forall(j, 0, bfCount(cert.Signers), bfBit(cert.Signers, j) < len(powerTable) && scaled[bfBit(cert.Signers, j)] > 0)
+//@   at MarshalForSigning 1
+//@     before[signed_payload_is_the_decide_payload] arg(1) == nn && payload.Instance == cert.GPBFTInstance && payload.Round == 0
+//@          && payload.Phase == gpbft.DECIDE_PHASE && payload.SupplementalData == cert.SupplementalData && payload.Value == cert.ECChain
+//@   at VerifyAggregate 1
+//@     before[verifies_exactly_the_signers_over_that_payload] arg(1) == res(MarshalForSigning, 1) && arg(2) == cert.Signature
+//@          && len(mask) == bfCount(cert.Signers) && forall(j, 0, len(mask), mask[j] == bfBit(cert.Signers, j)) && arg(0) == mask
+
+// ---------------------------------------------------------------------------------------------------------------
+// Chain validation. Loop variables nextInstance / base / prevPowerTable / chain describe the valid prefix.
+//@ pred headOf(c *FinalityCertificate) = c.ECChain.TipSets[len(c.ECChain.TipSets)-1]
+
+//@ func ValidateFinalityCertificates
+//@   property C04
+//@   modifies auto
+//@   maypanic
 //@   assumes _nextInstance >= nextInstance
-//@   assumes err == nil ==> _nextInstance == nextInstance + len(certs)
 //@   assumes err == nil && isTableFor(prevPowerTable, nextInstance) ==> isTableFor(newPowerTable, _nextInstance)
-//@   assumes err == nil ==> forall(i, 0, len(certs), certs[i].GPBFTInstance == nextInstance + i)
+//@   ensures[accepts_only_consecutive_instances] err == nil && old(nextInstance) + len(certs) <= 18446744073709551615 ==>
+//@        _nextInstance == old(nextInstance) + len(certs) && forall(i, 0, len(certs), certs[i].GPBFTInstance == old(nextInstance) + i)
+//@   loop 1
+//@     invariant iter == 0 ==> base == old(base) && prevPowerTable == old(prevPowerTable) && nextInstance == old(nextInstance)
+//@     invariant old(nextInstance) + len(certs) <= 18446744073709551615 ==> nextInstance == old(nextInstance) + iter
+//@          && forall(j, 0, iter, certs[j].GPBFTInstance == old(nextInstance) + j)
+//@     invariant iter > 0 ==> base == headOf(certs[iter-1])
+//@   at verifyFinalityCertificateSignature 1
+//@     assume sumPowDef(prevPowerTable)
+//@     before[consecutive_instance] cert.GPBFTInstance == nextInstance
+//@     before[well_formed_and_not_bottom] res(Validate, 1) == nil && !res(IsZero, 1)
+//@     before[starts_at_the_previous_head_or_callers_base] base == nil || res(Equal, 1)
+//@     before[signature_checked_against_the_table_in_force] arg(0) == verifier && arg(1) == prevPowerTable && arg(2) == network && arg(3) == cert
+//@   at ApplyPowerTableDiffs 1
+//@     before[delta_applied_only_after_the_signature_check] res(verifyFinalityCertificateSignature, 1) == nil
+//@     before[delta_applied_to_the_table_in_force] arg(0) == prevPowerTable && len(arg(1)) == 1 && arg(1)[0] == cert.PowerTableDelta
+//@   at MakePowerTableCID 1
+//@     before[commitment_computed_over_the_new_table] res(ApplyPowerTableDiffs, 1, 1) == nil && arg(0) == res(ApplyPowerTableDiffs, 1, 0)
+//@   at loopback 1
+//@     before[new_table_matches_the_committed_cid] res(MakePowerTableCID, 1, 1) == nil && cert.SupplementalData.PowerTable == res(MakePowerTableCID, 1, 0)
+//@     before[table_in_force_advances_to_the_new_table] prevPowerTable == res(ApplyPowerTableDiffs, 1, 0)
+//@     before[base_advances_to_the_finalized_head] base == res(Head, 1)
+//@   at return 0
+//@     before[rejection_reports_exactly_the_valid_prefix] arg(3) != nil ==> arg(0) == nextInstance && arg(1) == chain && arg(2) == prevPowerTable
